@@ -107,6 +107,16 @@ class Lin:
             base = "self" if (od and od[0] == "param" and od[1] == 1) else "_%d" % l
             return {"field:%s.%s" % (base, ".".join(fs)): 1, 1: 0}
         if p["proj"]:
+            # `(*r)` where r is (a copy of) `&x` / a tuple field holding `&x`
+            if all(e == "deref" or (isinstance(e, dict) and "field" in e) for e in p["proj"]) and depth > 2:
+                od = self.b.origin_def(o)
+                if od and od[0] == "def" and od[1]["kind"] == "call":
+                    return self.form({"copy": {"local": od[1]["term"]["dest"]["local"], "proj": []}}, depth - 2)
+                if od and od[0] == "const":
+                    v = const_value(od[1])
+                    return lf_const(v) if isinstance(v, int) else None
+                if od and od[0] in ("multi", "param"):
+                    return {"L%d" % od[1]: 1, 1: 0}
             return None
         ds = [d for d in self.b.defs().get(l, []) if d["kind"] != "mutcall"]
         if len(ds) != 1:
